@@ -98,6 +98,14 @@ func (d *caseDump) sigs(sigs []a.Signal, tIdx map[*a.SignalType]int, uIdx map[*a
 // writeCase writes the raw model input (map-like fields in SPECIFICATION order, i.e. arbitrary
 // with respect to every sort key) and the observed Markdown blocks / save order / DBC order.
 func writeCase(w *bufio.Writer, idx int, sp *Spec, b *Built, o outputs) {
+	d := dumpRaw(idx, sp, b)
+	finishCase(w, d, b, o)
+}
+
+// rawDump: only the raw network ("case" .. "endcase"), for the (before, change, after) triples
+func rawDump(idx int, sp *Spec, b *Built) string { return dumpRaw(idx, sp, b).w.String() }
+
+func dumpRaw(idx int, sp *Spec, b *Built) *caseDump {
 	d := &caseDump{w: &strings.Builder{}, sp: sp, b: b, sigH: map[*SigSpec]int{}, msgH: map[*MsgSpec]int{}, byEid: map[string]int{}}
 	g := func(f float64) string { return hx(fmt.Sprintf("%g", f)) }
 	tIdx, uIdx, eIdx := map[*a.SignalType]int{}, map[*a.SignalUnit]int{}, map[*a.SignalEnum]int{}
@@ -193,6 +201,10 @@ func writeCase(w *bufio.Writer, idx int, sp *Spec, b *Built, o outputs) {
 		fmt.Fprintf(d.w, "endbus\n")
 	}
 	fmt.Fprintf(d.w, "endcase\n")
+	return d
+}
+
+func finishCase(w *bufio.Writer, d *caseDump, b *Built, o outputs) {
 	// observed: Markdown
 	e := 0
 	if strings.HasPrefix(o.err, "markdown:") {
